@@ -1,9 +1,9 @@
 From Coq Require Import Extraction ExtrOcamlBasic ZArith NArith QArith.
-From SF Require Import Base.GeomAST Base.QKernel Base.Planar Model.Intersects Model.Distance.
+From SF Require Import Base.GeomAST Base.QKernel Base.Planar Model.Intersects Model.Distance Proofs.Intersects_areal Proofs.Intersects_polypoly.
 Extraction Language OCaml.
 Extraction "model.ml"
   intersects intersects_panics share_witness leaves ix_flat_o rings_closed lines_wf no_polys
   share_simple dist2 dist2_ref dist2_ref_with part_pts magnitude sqrt_close q_of_dyadic parts_box box_d2 part_xys part_lines
-  zq_geom is_empty inG g_polys f20_class clearance_ok
+  zq_geom is_empty inG g_polys f20_class clearance_ok operand_okb
   Qle_bool Qeq_bool Qplus Qmult Qminus Qred inject_Z
   N.of_nat N.to_nat Z.of_nat Z.add Z.mul Z.opp.
